@@ -16,6 +16,10 @@ class Num (F : Type) where
   neg : F → F
   isZero : F → Bool
   lt : F → F → Bool
+  /-- `f32::is_nan`: the execution instances have NaN values (`x != x`); the exact instances
+  (ℝ, ℚ, rounded reals) have none. Needed where the code's result depends on NaN-ness by more
+  than a comparison (`f32::max` ignores a NaN operand). -/
+  isNaN : F → Bool
 
 instance : Num Float32 where
   ofNat := Float32.ofNat
@@ -28,6 +32,7 @@ instance : Num Float32 where
   neg := fun x => x * (-1.0)
   isZero := (· == 0)
   lt := (· < ·)
+  isNaN := fun x => x != x
 
 instance : Num Float where
   ofNat := Float.ofNat
@@ -40,6 +45,7 @@ instance : Num Float where
   neg := fun x => x * (-1.0)
   isZero := (· == 0)
   lt := (· < ·)
+  isNaN := fun x => x != x
 
 /-- Information content from the stored pair `(current, total)`:
 `0` if either is `0`, else `-ln(current/total)` (`InformationContent::calculate`). -/
